@@ -242,6 +242,23 @@ def c09_streams(rng, tier, budget):
         st.obs_all(p, C09_OBS)
         st.cmp(h, p)
     yield "twins", st
+    # every SHAPE of a URL string (scheme x authority x path x query x fragment, each absent / empty / present), deterministic: what
+    # the constructor pre-computes depends on the shape ('mailto:', 'foo:?x=1', 'x://', '//h', 'p?#'), not on the texts
+    st2 = Stream()
+    for sc in ("", "x:", "mailto:", "http:"):
+        for au in (None, "//", "//h", "//u@h:81", "//[::1]", "//H.", "//:81"):
+            for pa in ("", "/", "p", "/p/q"):
+                if au not in (None,) and pa == "p":
+                    continue
+                for qu in ("", "?", "?q=1"):
+                    for fr in ("", "#", "#f"):
+                        s = sc + (au or "") + pa + qu + fr
+                        h = st2.new(s)
+                        st2.obs_all(h, C09_OBS)
+                        p = st2.pkl(h)
+                        st2.obs_all(p, C09_OBS)
+                        st2.cmp(h, p)
+    yield "shapes", st2
 
 
 def c09_cmp_oracle(full, io, b):
@@ -279,6 +296,14 @@ def c10_streams(rng, tier, budget):
         if rng.random() < 0.3:
             hs.append(st.new(s, encoded=True))
     hs.append(st.build(scheme="http", host="h"))
+    # routes that store scheme / host exactly as given (encoded=True build) next to the folding ones: equal only if the stored text is equal
+    hs.append(st.build(scheme="HTTP", host="h", encoded=True))
+    hs.append(st.build(scheme="http", host="H", encoded=True))
+    hs.append(st.build(scheme="HTTP", host="h", path="/", encoded=True))
+    hs.append(st.build(scheme="HTTP", host="h"))
+    hs.append(st.new("HTTP://h", encoded=True))
+    for t in ("//h/p", "/p", "h/p", "http:/p", "http:p", "http://h/p", "//h", "h", "/", "http:", "http://"):
+        hs.append(st.new(t))
     hs.append(st.build(scheme="http", host="h", path="/"))
     hs.append(st.build(scheme="http", host="h", port=80))
     for h in list(hs[:20]):
@@ -771,7 +796,8 @@ def c13_streams(rng, tier, budget):
     st = Stream()
     bases = ["http://h", "http://h/", "http://h/a", "http://h/a/", "http://h/a/b.txt", "http://h/a%20b.tar.gz", "/a/b", "a/b", "a", "", "/", "http://h/a//b",
              "http://h/%C3%A9.é", "http://h/a%2Fb.txt", "x:a/b", "http://h/.hidden", "http://h/a.", "http://h/a/b?q#f", "//h/a.b.c",
-             "http://h/file.%C3%A4", "http://h/f.x%20y%20z", "http://h/r.%25", "/d/n.%E2%82%AC", "http://h/a/b/", "/a/b/"]
+             "http://h/file.%C3%A4", "http://h/f.x%20y%20z", "http://h/r.%25", "/d/n.%E2%82%AC", "http://h/a/b/", "/a/b/",
+             "http://h//", "http://h///", "http://h//a/b", "http://h//a//", "////a", "x:////a/b", "http://h/%2F", "http://h/a/%2F/b", "http://h/%2E", "http://h/a/%2e%2E", "x:a", "x:/", "//h"]
     segs = ["a", "b.txt", "a b", "é", "%20", "a%2Fb", "a/b", "a/", "", ".", "..", "a/../b", "x.y.z", "a:b", "a@b", "a+b", "a?b", "a#b"]
     n = int((25 if tier == "quick" else 300) * budget)
     for bs in bases + [urlgen.rand_url_string(rng) for _ in range(n)]:
@@ -991,6 +1017,19 @@ def c14_streams(rng, tier, budget):
     if tier == "quick":
         rng.shuffle(pairs)
         pairs = pairs[: int(900 * budget)] + [(hb[0], c) for c in hr]
+    # the base shapes RFC 3986 5.2.2 / 5.2.3 single out (empty path with / without authority, query present) against every reference
+    # WITHOUT a path — always, whatever the draw
+    sb = [st.new(x) for x in ("http://example.com?a=1", "http://example.com?a=1#old", "http:?a=1", "?a=1#top", "http://example.com", "//h?a=1", "x://h?a=1", "mailto:?a=1")]
+    sr = [st.new(x) for x in ("", "#frag", "?y", "?", "#", "http:", "http:#frag", "http:?y", "x:", "//h2", "//h2?z")]
+    for h in sb + sr:
+        st.obs_all(h, C14_OBS)
+    pairs = pairs + [(a, c) for a in sb for c in sr]
+    # rootless bases with an EMPTY segment inside (the merge step must keep it) and bases under an authority with a doubled slash
+    sb2 = [st.new(x) for x in ("a//b/c", "x//y", "a//", "//h/a//b/c", "http://h//a//b", "x:a//b/c")]
+    sr2 = [st.new(x) for x in ("d", "../z", "./", "..", "d/e", "?q")]
+    for h in sb2 + sr2:
+        st.obs_all(h, C14_OBS)
+    pairs = pairs + [(a, c) for a in sb2 for c in sr2]
     for a, c in pairs:
         j = st.join(a, c)
         st.obs_all(j, C14_OBS)
